@@ -6,6 +6,7 @@ package g
 import (
 	"fmt"
 	"runtime"
+	"sync/atomic"
 )
 
 var frames = []struct{ pre, suf string }{
@@ -60,10 +61,19 @@ func Recycle(n int, f func(i int) error) error {
 		if err := f(i); err != nil {
 			return err
 		}
-		runtime.GC()
+		if gcBudget.Add(-1) >= 0 {
+			runtime.GC()
+		}
 	}
 	return nil
 }
+
+// gcBudget bounds the collections forced by Recycle in one test process (a collection costs far more than the
+// calls it separates; the thorough tier multiplies the case counts by up to 100). Once it is used up the rounds
+// still run, with whatever collections the 20 ms ticker of the process happens to place between them.
+var gcBudget atomic.Int64
+
+func init() { gcBudget.Store(12000) }
 
 // GrowStack calls f at a recursion depth that forces the goroutine stack to be re-allocated (grown) if the
 // goroutine has not used that much stack before; values living in the caller's frames move with it.
